@@ -6,6 +6,7 @@ import (
 	"go/ast"
 	"go/token"
 	"go/types"
+	"strings"
 )
 
 func init() {
@@ -382,7 +383,38 @@ func ruleR08_8(c *Check) {
 	_ = cl
 }
 
+// R08.9: a request (hence a transaction with its end marker) lands in one WAL file.
+func ruleR08_9(c *Check) {
+	w := c.W
+	r := c.Rule("R08.9", "E3", 2, "no rotation of the active memtable is reachable from DB.writeToLSM: DB.mt is never assigned (and ensureRoomForWrite never called) between the first and the last entry of a request; rotation happens only in writeRequests before writeToLSM, in Open, close, dropAll and DropPrefix",
+		"replay is per WAL file and applies a transaction only when its end marker follows its entries in the same file: a transaction split across two .mem files is dropped in the first and applied partially (or truncated away with everything after it) in the second")
+	mt := w.Field("badger.DB.mt")
+	f := w.F("badger.DB.writeToLSM")
+	seen := w.CG().Reach([]*Fn{f}, reachOpt{SkipAsync: true})
+	n := 0
+	var k keyer
+	for g := range seen {
+		n++
+		for _, s := range g.Sites(selStore(mt)) {
+			r.Check(false, g, k.key("memtable rotated inside a request", w, s), s, "DB.mt assigned in "+g.Name+", reachable from writeToLSM: "+strings.Join(chain(seen, g), " -> "))
+		}
+	}
+	r.Check(true, f, "functions reachable from writeToLSM assign DB.mt nowhere", nil, "")
+	allowed := map[string]bool{"badger.Open": true, "badger.DB.ensureRoomForWrite": true, "badger.DB.close": true, "badger.DB.dropAll": true, "badger.DB.DropPrefix": true}
+	for _, o := range allStores(w, mt) {
+		root := o.SiteFn.Root().Name
+		r.Check(allowed[root], o.SiteFn, k.key("DB.mt assigned by an owner", w, o.Node), o.Node, "DB.mt assigned in "+root)
+	}
+	er := w.F("badger.DB.ensureRoomForWrite")
+	for _, cs := range w.CG().CallSitesOf(er) {
+		r.Check(cs.Caller.Name == "badger.DB.writeRequests", cs.Caller, "ensureRoomForWrite called between requests only", cs.Node, "ensureRoomForWrite called from "+cs.Caller.Name)
+	}
+	wr := w.F("badger.DB.writeRequests")
+	r.DomAll(wr, "writeToLSM after ensureRoomForWrite", selCallName(w, "badger.DB.writeToLSM"), 0, selCallName(w, "badger.DB.ensureRoomForWrite"), 0)
+}
+
 func propC08(c *Check) {
+	ruleR08_9(c)
 	ruleR08_1(c)
 	ruleR08_2(c)
 	ruleR08_3(c)
